@@ -146,7 +146,7 @@ def gen_case(rng, ctx):
         extra["PREFER_MONTH_OF_YEAR"] = rng.choice(["first", "last", "current"])
     if rng.random() < 0.2:
         extra["DATE_ORDER"] = rng.choice(["DMY", "MDY", "YMD"])
-    if rng.random() < 0.2:
+    if (kind == "numeric" and present and present[0] == "dmy2" and rng.random() < 0.7) or rng.random() < 0.2:
         # non-default preference: only R1 (same world, strict on vs off) is judged then, because a
         # two-digit year is legitimately moved by a century relative to the reference
         extra["PREFER_DATES_FROM"] = rng.choice(["past", "future"])
